@@ -190,17 +190,31 @@ func c17Run(raw []byte) (*Line, error) {
 		nice := func() (float64, float64) { return niceO(on) }
 		var major, minor []float64
 		pan, _ := catch(func() { major, minor = ticks() })
-		l.I(st(pan)).Fs(major).Fs(minor)
+		// a result of more than 50000 ticks is reported as status 4 with the first 16 elements
+		// (never accepted by the comparator: Max <= 20 in every generated case; the level below
+		// the chosen one has at most Max * Base^2 ticks)
+		tooLong := func(x []float64) bool { return len(x) > 50000 }
+		cut := func(x []float64) []float64 {
+			if tooLong(x) {
+				return x[:16]
+			}
+			return x
+		}
+		stT := st(pan)
+		if !pan && (tooLong(major) || tooLong(minor)) {
+			stT = 4
+		}
+		l.I(stT).Fs(cut(major)).Fs(cut(minor))
 		l.I(len(c.Levels))
 		for _, lev := range c.Levels {
 			var n int
 			var t []float64
-			// TicksAtLevel is not called where CountTicks reports more than 1e5 ticks (far below
+			// TicksAtLevel is not called where CountTicks reports more than 2000 ticks (far below
 			// the natural level a tick list of 1e19 elements cannot exist): status 3
 			skipped := false
 			pan, _ := catch(func() {
 				n = count(lev)
-				if c.K == 1 && (n > 100000 || n < 0) {
+				if c.K == 1 && (n > 2000 || n < 0) {
 					skipped = true
 					return
 				}
@@ -209,6 +223,8 @@ func c17Run(raw []byte) (*Line, error) {
 			status := st(pan)
 			if skipped && !pan {
 				status = 3
+			} else if !pan && tooLong(t) {
+				status, t = 4, t[:16]
 			}
 			l.I(lev).I(n).I(status).Fs(t)
 		}
@@ -224,7 +240,11 @@ func c17Run(raw []byte) (*Line, error) {
 		pan3, _ := catch(func() { major3, _ = ticksN() })
 		pan, _ = catch(func() { a, b = nice() })
 		l.I(st(pan)).F(a).F(b)
-		l.I(st(pan3)).Fs(major3)
+		st3 := st(pan3)
+		if !pan3 && tooLong(major3) {
+			st3, major3 = 4, major3[:16]
+		}
+		l.I(st3).Fs(major3)
 		return l, nil
 	}
 	return nil, fmt.Errorf("bad kind")
@@ -398,6 +418,19 @@ func c17LinearCase(rng *rand.Rand) c17Case {
 		mn, mx = c-w/2, c+w/2
 		if rng.Intn(2) == 0 {
 			mn, mx = float64(float32(mn)), float64(float32(mx))
+		}
+	}
+	nearInt := rng.Intn(60) == 0
+	if nearInt {
+		// (end + slack)/spacing within rounding of an integer: min = 0, max = n/(1+1e-10) or mirrored
+		// (exercises the admissible set of the Linear floor/ceil decisions)
+		n := float64(1 + rng.Intn(60))
+		if rng.Intn(3) == 0 {
+			n *= math.Pow(float64(eb), float64(rng.Intn(5)-2))
+		}
+		mn, mx = 0, n/(1+1e-10)
+		if rng.Intn(2) == 0 {
+			mn, mx = -mx, 0
 		}
 	}
 	if !(mn < mx) {
